@@ -179,6 +179,11 @@ def check_layouts(prog, r):
         f_flag = f_addr = None
         for bi, t in fv.calls(re.compile(r".*IpAddr::is_ipv6$")):
             f_flag = set(expr_fields(rend.operand(t["args"][0], 10)))
+        if f_flag is None:
+            # `match self.remote_addr { IpAddr::V4(_) => 0, IpAddr::V6(_) => FLAG }`: a switch on the discriminant of an IpAddr
+            for bb, br in branches(fv, rend).items():
+                if br.expr[0] == "discr" and br.adt and br.adt.endswith("IpAddr"):
+                    f_flag = set(expr_fields(br.expr))
         for bi, t in fv.calls(re.compile(r"rustybgp_packet::bmp::Message::encode_ip$")):
             f_addr = set(expr_fields(rend.operand(t["args"][1], 10)))
         if f_flag and f_addr and f_flag == f_addr:
